@@ -318,7 +318,7 @@ impl Family for Totality {
             "soup" => (render_soup(case), "soup"),
             "typepos" => (render_typepos(case), "typepos"),
             "scale" => (render_scale(case), "scale"),
-            _ => match crate::fam_request::texts_of(case) {
+            _ => match if case.get("item").is_some() { crate::fam_rules::render(case) } else { crate::fam_request::texts_of(case) } {
                 Some(t) => (t, "generated"),
                 None => return Outcome { fail: None, nontrivial: false, key: 0, rendered: json!(null) },
             },
@@ -339,7 +339,10 @@ impl Family for Totality {
         // the binary on real files: always for the small families, sampled for the soups
         let with_bin = matches!(fam, "typepos" | "scale") || (fam == "soup" && (key >> 8) % 16 == 0) || (family_name == "generated" && (key >> 8) % 8 == 0);
         if with_bin {
-            let mut ev = bin_run(&dir, &texts, &["--dry-run".to_owned()], true);
+            // an accepted program goes all the way: without --dry-run the generator request is built and encoded even when
+            // no generator is named; for a rejected one the flag changes nothing, so it is given every other time
+            let extra: Vec<String> = if r.accepted || (key >> 12) % 2 == 0 { vec![] } else { vec!["--dry-run".to_owned()] };
+            let mut ev = bin_run(&dir, &texts, &extra, true);
             ev["ev"] = json!("run");
             ev["mode"] = json!("bin");
             ev["fam"] = json!(family_name);
